@@ -469,6 +469,13 @@ func randomScenario(prop string, rng *rand.Rand) *prodScenario {
 			sc.Steer = append(sc.Steer, steerSpec{Kind: kinds[rng.Intn(len(kinds))], Nth: 1 + rng.Intn(3), K: 1 + rng.Intn(3)})
 		}
 	}
+	if prop == "C01" && !sc.Idempotent && sc.Version.IsAtLeast(sarama.V0_10_0_0) && len(sc.Msgs) > 2 && rng.Intn(6) == 0 {
+		// one or two messages whose request cannot be encoded (a timestamp before 1970): the request
+		// they travel in fails as a whole, what is buffered behind it must not be affected
+		for k := 0; k < 1+rng.Intn(2); k++ {
+			sc.Msgs[rng.Intn(len(sc.Msgs)-1)].Ts = time.Unix(-1000, 0)
+		}
+	}
 	if prop == "C01" && rng.Intn(5) == 0 {
 		sc.Sync = true
 		sc.SyncBatch = rng.Intn(4)
